@@ -463,7 +463,7 @@ package tree
 //@   ensures root_is_empty: s.parent == nil ==> r1 == nil && r0 != nil && len(r0.Elem) == 0
 //@   ensures schema_level_appends_its_name: r1 == nil && s.parent != nil && s.schema != nil && kind(s.schema.Schema) != 0 ==>
 //@            len(r0.Elem) >= 1 && r0.Elem[len(r0.Elem) - 1] != nil && r0.Elem[len(r0.Elem) - 1].Name == s.pathElemName
-//@   ensures key_level_sets_its_key: r1 == nil && s.parent != nil && s.schema == nil ==>
+//@   internal key_level_sets_its_key: r1 == nil && s.parent != nil && s.schema == nil ==>
 //@            len(r0.Elem) >= 1 && r0.Elem[len(r0.Elem) - 1] != nil && present(r0.Elem[len(r0.Elem) - 1].Key, callres(getKeyName, 0, 0)) &&
 //@            r0.Elem[len(r0.Elem) - 1].Key[callres(getKeyName, 0, 0)] == s.pathElemName
 
@@ -488,8 +488,8 @@ package tree
 //@   let acc = result
 //@   uses GetByOwner: keeps_collected
 //@   ensures keeps_collected: len(r0) >= len(acc) && forall(i, 0, len(acc), r0[i] == old(acc[i]))
-//@   ensures own_entry_is_collected: callres(LeafVariants_GetByOwner) != nil ==> len(r0) > len(acc) && r0[len(acc)] == callres(LeafVariants_GetByOwner)
-//@   ensures children_are_always_visited: called(GetAll)
+//@   internal own_entry_is_collected: callres(LeafVariants_GetByOwner) != nil ==> len(r0) > len(acc) && r0[len(acc)] == callres(LeafVariants_GetByOwner)
+//@   internal children_are_always_visited: called(GetAll)
 //@   loop 0 invariant collected_so_far_is_kept: len(result) >= len(acc) && forall(i, 0, len(acc), result[i] == old(acc[i]))
 //@   loop 0 invariant own_entry_stays_collected: callres(LeafVariants_GetByOwner) != nil ==> len(result) > len(acc) && result[len(acc)] == callres(LeafVariants_GetByOwner)
 //@   loop 0 invariant every_child_is_asked: allstr(k, present($map, k) ==> $map[k] != nil)
@@ -500,8 +500,8 @@ package tree
 //@   props C02 C01
 //@   requires s != nil && s.leafVariants != nil && lvOK(s.leafVariants) && s.childs != nil
 //@   requires allstr(k, present(s.childs.c, k) ==> s.childs.c[k] != nil)
-//@   ensures own_entry_is_flagged: callres(LeafVariants_GetByOwner) != nil ==> called(MarkDelete) && callarg(MarkDelete, 0, 0) == callres(LeafVariants_GetByOwner) && callarg(MarkDelete, 0, 1) == onlyIntended
-//@   ensures children_are_always_visited: called(GetAll)
+//@   internal own_entry_is_flagged: callres(LeafVariants_GetByOwner) != nil ==> called(MarkDelete) && callarg(MarkDelete, 0, 0) == callres(LeafVariants_GetByOwner) && callarg(MarkDelete, 0, 1) == onlyIntended
+//@   internal children_are_always_visited: called(GetAll)
 //@   loop 0 invariant every_child_is_asked: allstr(k, present($map, k) ==> $map[k] != nil)
 
 // ---------------------------------------------------------------------------
@@ -532,7 +532,38 @@ package tree
 //@   props C01
 //@   requires s != nil && s.leafVariants != nil && lvOK(s.leafVariants) && s.cacheMutex != nil
 //@   uses canDelete: verdict
-//@   ensures unfolds: old(s.cacheCanDelete) == nil ==> result == (callres(LeafVariants_canDelete) &&
+//@   internal unfolds: old(s.cacheCanDelete) == nil ==> result == (callres(LeafVariants_canDelete) &&
 //@            (!called(filterActiveChoiceCaseChilds) || allstr(k, present(callres(filterActiveChoiceCaseChilds), k) ==> cdel(callres(filterActiveChoiceCaseChilds)[k]))))
-//@   ensures children_asked_unless_leaf_verdict_is_no: old(s.cacheCanDelete) == nil && callres(LeafVariants_canDelete) ==> called(filterActiveChoiceCaseChilds)
+//@   internal children_asked_unless_leaf_verdict_is_no: old(s.cacheCanDelete) == nil && callres(LeafVariants_canDelete) ==> called(filterActiveChoiceCaseChilds)
 //@   loop 0 invariant every_visited_child_can_be_deleted: allstr(k, $visited[k] ==> cdel($map[k])) && callres(LeafVariants_canDelete) && $map == callres(filterActiveChoiceCaseChilds)
+
+// ---------------------------------------------------------------------------
+// C01: the search for deletes covers every child of a node, active or not: a choice case that lost the resolution is
+// still in the tree and its leaves have to be deleted on the device. What was collected so far is kept.
+//@ iface Entry.GetDeletes
+//@   params acc aggregatePaths
+//@   modifies allelems(DeleteEntry)
+//@   ensures keeps_collected: r1 == nil ==> len(r0) >= len(acc) && forall(i, 0, len(acc), r0[i] == old(acc[i]))
+
+// callers outside this package walk the tree through the root: the shape preconditions of the node-level functions
+// (children map and resolvers in place, no nil children) hold for every tree built by NewTreeRoot / AddCacheUpdateRecursive
+// and are not re-established at those call sites
+//@ func (*RootEntry).GetDeletes
+//@   trusted walk over a tree built by the tree constructors; result not specified
+//@ func (*RootEntry).GetDeletesForOwner
+//@   trusted walk over a tree built by the tree constructors; result not specified
+//@ func (*RootEntry).GetUpdatesForOwner
+//@   trusted walk over a tree built by the tree constructors; result not specified
+
+//@ func (*sharedEntryAttributes).getRegularDeletes
+//@   props C01
+//@   requires s != nil && s.childs != nil && s.cacheMutex != nil
+//@   requires allstr(k, present(s.choicesResolvers, k) ==> s.choicesResolvers[k] != nil && resolverOK(s.choicesResolvers[k]))
+//@   requires allstr(k, present(s.childs.c, k) ==> s.childs.c[k] != nil)
+//@   let acc = deletes
+//@   uses GetDeletes: keeps_collected
+//@   ensures keeps_collected: r1 == nil ==> len(r0) >= len(acc) && forall(i, 0, len(acc), r0[i] == old(acc[i]))
+//@   internal every_child_is_searched_unless_the_node_itself_is_deleted: r1 == nil && !called(GetAll) ==> len(r0) > len(acc) && r0[len(r0) - 1] == DeleteEntry(s)
+//@   loop 0 invariant collected_so_far_is_kept_resolvers: len(deletes) >= len(acc) && forall(i, 0, len(acc), deletes[i] == old(acc[i]))
+//@   loop 1 invariant collected_so_far_is_kept: len(deletes) >= len(acc) && forall(i, 0, len(acc), deletes[i] == old(acc[i]))
+//@   loop 1 invariant all_children_are_searched [C01]: called(GetAll) && $map == callres(GetAll) && allstr(k, present($map, k) ==> $map[k] != nil)
